@@ -261,13 +261,10 @@ impl<'a> IntoIterator for PrivacyUnitPath {
         let pu_referred_weight = self.referred_weight_field().clone();
         for step in self.path {
             if let Some(last_step) = &mut last_step {
-                let mut referred_fields = vec![step.referring_id.to_string()];
-                let mut referred_fields_names = vec![PrivacyUnitPath::privacy_unit().to_string()];
-
-                if pu_referred_weight.is_some() {
-                    referred_fields.push(step.referring_id.to_string());
-                    referred_fields_names.push(PrivacyUnitPath::privacy_unit_weight().to_string())
-                };
+                // An intermediate hop only carries the key of the next hop (the weight comes with the last hop: the same
+                // column under two names would be collapsed by the field -> name map of `with_referred_fields`)
+                let referred_fields = vec![step.referring_id.to_string()];
+                let referred_fields_names = vec![PrivacyUnitPath::privacy_unit().to_string()];
                 field_path.push(ReferredFields::new(
                     last_step.referring_id.to_string(),
                     last_step.referred_relation.to_string(),
